@@ -14,6 +14,13 @@ def run(tier):
                    what='all 4096 digraphs on 4 nodes',
                    bounds='n=4, all 2^12 edge relations, 16 partitions on the first 4 edge bits', functions=FUNCS_A),
     ]
+    gparts = [[0, 0, 0]] + [[k, l, f] for k in range(1, 5) for l in range(2)
+                            for f in (range(3) if tier == 'thorough' else range(2))]
+    obs.append(Obligation('evolution_graph', 'harness/c09.py', 'h_evolution_graph', partitions=gparts, timeout=600,
+                          what='EvolutionGraph over three fake apps: sequence order inside an app, one declared AFTER/BEFORE_EVOLUTIONS requirement at evolution or app level targeting an evolution or a whole app, both registration orders, already-applied prefixes: every pending evolution exactly once, requirements between pending units honoured, requirements on applied units ignored',
+                          bounds='3 apps x 0-2 evolutions x applied prefix 0..n x 4 dependency kinds x 2 levels x source/target app and label x 2 registration orders',
+                          functions=['utils/graph.py EvolutionGraph.add_evolutions, mark_evolutions_applied, iter_batches, _add_evolution*, DependencyGraph.*',
+                                     'utils/evolutions.py get_evolution_dependencies, get_evolution_app_dependencies, get_evolution_module(s)']))
     return run_check('C09', obs, tier,
-                     assumptions=['node keys are the fixed strings n0..n3 inserted in index order (any insertion order is a relabelling of some enumerated graph)'],
+                     assumptions=['fake app modules (sys.modules entries vfa0..2 with evolutions packages); get_app_label/get_app_name answer from them; importlib runs untraced; migrations are not part of the graph harness', 'node keys are the fixed strings n0..n3 inserted in index order (any insertion order is a relabelling of some enumerated graph)'],
                      trusted_base=['CrossHair 0.0.110', 'z3 5.1.0', 'vlib/ch_patch.py', 'oracle _acyclic/_order_ok in harness/c09.py'])
